@@ -22,11 +22,14 @@ CLAIMS = {
                 note="Oracle = api.proto/api_options.proto parsed by ground/protoparse.py; call-site classes resolved statically (unresolved => unsupported, never pass)."),
 }
 
-CLAIMS["C14"] = dict(category="proof", technique="ground obligations over model.py AST vs api.proto text (complete enumeration) + per-enum-class contracts on the real APIIntEnum.convert/convert_list (loop invariant) discharged by z3; bounded native stand-ins for from_pb/round-trip/float rule",
+CLAIMS["C14"] = dict(category="proof", technique="ground obligations over model.py AST vs api.proto text (complete enumeration) + contracts on the real APIIntEnum.convert/convert_list (per enum class, loop invariant) and on the real APIModelBase.from_pb/__post_init__ (per wire message / model pair, one clause per wire field derived from api.proto) discharged by z3, counter-models replayed natively; bounded native stand-ins for round-trip, float digits and nested converters",
     text="Proved: every model enum paired with a wire enum has exactly the wire numbers, matching names, no aliases; every model class built from a wire message has exactly its field names; "
-         "convert/convert_list of each of the 29 enum classes return the member with that number / None / drop unknown numbers, for all integers and all lists. "
-         "Bounded only (reported under coverage.bounded, not counted as proved): from_pb value preservation and to_dict/from_dict round trip on generated messages, 7-significant-digit rounding on sampled float32 patterns.",
-    note=TB + " enum lookup and dataclasses behave as documented (A-LIB). One open known finding (F7, UpdateCommand.INSTALL name).")
+         "convert/convert_list of each of the 29 enum classes return the member with that number / None / drop unknown numbers, for all integers and all lists; "
+         "for each of the 67 (wire message, model) pairs built by the generic from_pb, conversion of an arbitrary message of that type raises nothing and every scalar, repeated-scalar, enum and float field "
+         "has the value the property prescribes (preserved; enum member or None / dropped; float preserved or round7 of it). "
+         "Bounded only (reported under coverage.bounded, not counted as proved): to_dict/from_dict round trip, the numeric meaning of round7 (7 significant digits) on sampled float32 patterns, "
+         "fields of message type and the hand-written converters (nested models, split uuids, service maps, BluetoothLEAdvertisement.from_pb).",
+    note=TB + " enum lookup and dataclasses (fields(), Field.metadata, generated __init__) behave as documented and are read from the live classes (A-LIB). One open known finding (F7, UpdateCommand.INSTALL name).")
 CLAIMS["C15"] = dict(category="proof", technique="one generated contract per command method (expected request derived from the message descriptor + the has_<field> rule of the statement), real method bodies symbolically executed with symbolic optional arguments, z3; native replay of counter-models",
     text="For each of the 18 entity command methods: exactly one request of the right class is handed to the connection, key carried, each optional argument's value and presence flag exactly when supplied (None vs falsy distinguished symbolically, all 2^n subsets in one query per path), "
          "every other field at its default, ms conversion, rgb split, legacy cover/away encodings by negotiated version; on a send failure nothing else is sent. execute_service is a bounded native stand-in.",
